@@ -100,6 +100,15 @@ func callEscape(fn, s string) (out string, panicked string) {
 	return strutil.ShellEscape(s), ""
 }
 
+// fitsExecve: can the expected argument be passed to a program at all (MAX_ARG_STRLEN)?
+func fitsExecve(cfg shellCfg, want string) bool {
+	n := len(want)
+	if cfg.Ctx == "herestr" {
+		n++ // the here-string adds a newline
+	}
+	return n <= 131071
+}
+
 // expectedArg is the argv element a program must receive for input s.
 func expectedArg(fn, s, home string) string {
 	if fn == fnTilde && strings.HasPrefix(s, "~/") {
@@ -251,7 +260,7 @@ type mon struct{}
 func (mon) Name() string { return "shellesc" }
 
 func (mon) Level(string) (string, string) {
-	return "exploration", "inputs = (a) every string of length <= 4 (quick) / <= 5 (thorough) over the 15-character alphabet {' \" \\ $ ` space newline ; & | * ~ ! # a}, plus \"~/\"+w for every such w (the alphabet has no '/'); (b) a fixed hostile corpus (command substitutions, separators, redirections, globs, tilde forms, every single byte in quoting contexts, arguments up to 100 kB; many try to create a canary file); (c) seeded random NUL-free byte strings of length <= 64 (2*10^4 quick / 10^6 thorough; 40% uniform bytes, 60% weighted towards shell-special bytes, 15% with a leading ~/ or ~). Every input goes through ShellEscape and ShellEscapeExceptTilde and both outputs are judged by the POSIX quoting model; (a), (b) and - in both tiers - all of (c) are also executed by dash, bash and bash --posix under LC_ALL=C and C.UTF-8 (ExceptTilde: HOME=/vhome/plain and HOME='/vhome/sp ace'), 500 words per command line, comparing the NUL-separated argv received by an external program, stderr, exit status and the directory content. The results of a batch (2500 inputs) are kept exactly as returned while the rest of the batch is escaped and it is these kept strings that go into the shell scripts; after the batch and again after the shells ran, every kept string is compared with a copy taken when it was returned and with the result of a fresh call (a result that changes while later calls happen is reported as result-mutated). (d) every string of length <= 16 over {quote, letter} (131 071; quoting model and kept-result comparison, thorough: the shells too). (e) concurrent callers: shards with GOMAXPROCS 2/4/16 and 4, 16, 64 or 4*GOMAXPROCS goroutines, each escaping its own seeded stream of tagged words (quote-heavy, plain, hostile, arbitrary bytes, long, ~/ forms; 40 000 words per shard quick, 10^6 thorough, both functions) - every result judged at once by the quoting model against the goroutine's own input, kept results compared per block of 32, and a seeded subset of kept results run by the shells after the join; such violations carry 'concurrent' in the key and replay the scenario. THOROUGH ONLY: (f) every word of length exactly 6 over the alphabet and \"~/\"+w (2 x 11.4 M inputs; model for all, shells: all 3 shells x 2 locales for both functions, the two HOMEs of the tilde form alternating per 2500-word chunk); (g) every word <= 4 behind the prefixes ~root/ ~nosuchuser/ ~+/ ~-/ ~a/ ~root ~; (h) every byte 0x01..0xff in every position: all 2-byte strings, and strings of length 3..5 with the other positions over {' \" \\ a space ~}, the 2- and 3-byte ones also behind ~/; (i) long arguments: lengths 4095..131071 (the execve limit for one argument) filled with letters, quotes (up to 131 071 of them), quote/backslash/newline patterns, command substitutions and seeded random bytes, plain and behind ~/; (j) shell contexts - the words (<= 4 over the alphabet, their ~/ forms, the corpus, 48 000 random strings) not only as arguments but tab-separated with an operator right after the last word, inside sh -c and eval (inner command line escaped once more by ShellEscape), in a for-list, assigned to variables and expanded quoted, inside $( ), as bash here-strings (LC_ALL=C), with IFS set to the bytes a ' \" \\ / ~ space newline or to empty, under set -f / set -u / set -fu, and in a directory holding a file for every 1- and 2-character string over the alphabet (every glob matches, most inputs name a file); the tilde form additionally with HOME=/, HOME=/vh/, a HOME made of shell-special characters and command substitutions, and a HOME with newline, tab and invalid UTF-8. distinct_nontrivial = distinct inputs containing at least one byte outside [A-Za-z0-9_./-]."
+	return "exploration", "inputs = (a) every string of length <= 4 (quick) / <= 5 (thorough) over the 15-character alphabet {' \" \\ $ ` space newline ; & | * ~ ! # a}, plus \"~/\"+w for every such w (the alphabet has no '/'); (b) a fixed hostile corpus (command substitutions, separators, redirections, globs, tilde forms, every single byte in quoting contexts, arguments up to 100 kB; many try to create a canary file); (c) seeded random NUL-free byte strings of length <= 64 (2*10^4 quick / 10^6 thorough; 40% uniform bytes, 60% weighted towards shell-special bytes, 15% with a leading ~/ or ~). Every input goes through ShellEscape and ShellEscapeExceptTilde and both outputs are judged by the POSIX quoting model; (a), (b) and - in both tiers - all of (c) are also executed by dash, bash and bash --posix under LC_ALL=C and C.UTF-8 (ExceptTilde: HOME=/vhome/plain and HOME='/vhome/sp ace'), 500 words per command line, comparing the NUL-separated argv received by an external program, stderr, exit status and the directory content. The results of a batch (2500 inputs) are kept exactly as returned while the rest of the batch is escaped and it is these kept strings that go into the shell scripts; after the batch and again after the shells ran, every kept string is compared with a copy taken when it was returned and with the result of a fresh call (a result that changes while later calls happen is reported as result-mutated). (d) every string of length <= 16 over {quote, letter} (131 071; quoting model and kept-result comparison, thorough: the shells too). (e) concurrent callers: shards with GOMAXPROCS 2/4/16 and 4, 16, 64 or 4*GOMAXPROCS goroutines, each escaping its own seeded stream of tagged words (quote-heavy, plain, hostile, arbitrary bytes, long, ~/ forms; 40 000 words per shard quick, 10^6 thorough, both functions) - every result judged at once by the quoting model against the goroutine's own input, kept results compared per block of 32, and a seeded subset of kept results run by the shells after the join; such violations carry 'concurrent' in the key and replay the scenario. THOROUGH ONLY: (f) every word of length exactly 6 over the alphabet and \"~/\"+w (2 x 11.4 M inputs; model for all, shells: all 3 shells x 2 locales for both functions, the two HOMEs of the tilde form alternating per 2500-word chunk); (g) every word <= 4 behind the prefixes ~root/ ~nosuchuser/ ~+/ ~-/ ~a/ ~root ~; (h) every byte 0x01..0xff in every position: all 2-byte strings, and strings of length 3..5 with the other positions over {' \" \\ a space ~}, the 2- and 3-byte ones also behind ~/; (i) long arguments: lengths 4095..131071 (the execve limit for one argument) filled with letters, quotes (up to 131 071 of them), quote/backslash/newline patterns, command substitutions and seeded random bytes, plain and behind ~/; (j) shell contexts - the words (<= 4 over the alphabet, their ~/ forms, the corpus, 48 000 random strings) not only as arguments but tab-separated with an operator right after the last word, inside sh -c and eval (inner command line escaped once more by ShellEscape), in a for-list, assigned to variables and expanded quoted, inside $( ), as bash here-strings (LC_ALL=C), with IFS set to the bytes a ' \" \\ / ~ space newline or to empty, under set -f / set -u / set -fu, and in a directory holding a file for every 1- and 2-character string over the alphabet (every glob matches, most inputs name a file); each context under all 3 shells x 2 locales, for the tilde form with the two standard HOMEs alternating over the contexts; the tilde form additionally (as plain arguments) with HOME=/, HOME=/vh/, a HOME made of shell-special characters and command substitutions, and a HOME with newline, tab and invalid UTF-8. distinct_nontrivial = distinct inputs containing at least one byte outside [A-Za-z0-9_./-]."
 }
 
 func (mon) Assumptions(string) []string {
@@ -326,11 +335,15 @@ func (mon) Plan(prop, tier string, seed int64) []drv.Shard {
 			out = append(out, drv.Shard{Name: fmt.Sprintf("%s-%d", kind, p), Args: a, Secs: secs})
 		}
 	}
-	add("exh6", 64, 6)    // every word of length exactly 6 over the alphabet, and "~/"+w
+	base := out
+	out = nil
+	// the heaviest shards first, so that no single shard is left running at the end
+	add("long", 16, 0)    // arguments up to the 128 KiB limit of execve
 	add("ctx", 16, 4)     // words <= 4, ~/ forms, corpus, random: in every shell context and special HOME
+	add("exh6", 64, 6)    // every word of length exactly 6 over the alphabet, and "~/"+w
 	add("bytepos", 16, 5) // every byte 0x01..0xff in every position of short strings
 	add("pre", 4, 4)      // ~user-like prefixes + every word <= 4
-	add("long", 2, 0)     // arguments up to the 128 KiB limit of execve
+	out = append(out, base...)
 	return out
 }
 
@@ -478,10 +491,19 @@ func (r *runner) process(label string, ins []string, nShell int) {
 					continue
 				}
 				w := expectedArg(fn, ins[i], cfg.Home)
+				if !fitsExecve(cfg, w) {
+					// the kernel refuses a single argument of more than 131071 bytes (E2BIG):
+					// nothing a shell or an escaper can do about it
+					c.Add("words_skipped_over_execve_argument_limit", 1)
+					continue
+				}
 				if w != ins[i] {
 					expansions++
 				}
 				items = append(items, item{in: ins[i], esc: shellText[i], want: w})
+			}
+			if len(items) == 0 {
+				continue
 			}
 			c.Progress(fmt.Sprintf("%s %s %s (%d words)", label, fn, cfg, len(items)), true)
 			o, inc := r.env.checkBatch(cfg, items)
